@@ -3,6 +3,7 @@ use super::StorageSlice;
 use super::write_ahead_log::WriteAheadLog;
 use super::write_ahead_log::WriteAheadLogRecord;
 use crate::DbError;
+use crate::DbErrorType;
 use std::fs::File;
 use std::fs::OpenOptions;
 use std::io::Read;
@@ -120,6 +121,16 @@ impl StorageData for FileStorage {
     }
 
     fn read(&'_ self, pos: u64, value_len: u64) -> Result<StorageSlice<'_>, DbError> {
+        if pos.checked_add(value_len).is_none_or(|end| end > self.len) {
+            return Err(DbError::storage(
+                DbErrorType::OutOfBounds,
+                format!(
+                    "Read of {value_len} bytes at {pos} exceeds storage length {}",
+                    self.len
+                ),
+            ));
+        }
+
         let mut buffer = vec![0_u8; value_len as usize];
 
         if let Ok(_guard) = self.lock.try_lock() {
